@@ -29,6 +29,10 @@ SRC = {
     'hints': "import typing\ndef check(value: int, other: str = 'x') -> bool:\n    local_value: int = value\n    return typing.get_type_hints(check) and check.__annotations__ and local_value\nprint(check(1))\n",
     'deep': "x = " + "+".join(["a"] * 120) + "\n",
     'fold2': "SECONDS = 43200.0 * 2\nMASK = 65295.0 + 0\nprint(SECONDS, MASK, 1 + 2, 5.0 % 3, 0.0 * -1, True + True)\n",
+    # exit paths of minify(): the early return that puts the shebang back, with sources the parser rejects or that sit at interpreter-wide limits
+    'shebang': "#!/usr/bin/env python\nimport os\nprint(os.sep, 'some literal', 'some literal')\n",
+    'shebang+hugeint': "#!/usr/bin/env python\nbig_value = 1" + "0" * 5000 + "\nprint(big_value > 0)\n",
+    'hugehex': "MASK = 0x" + "f" * 4000 + " + 0x" + "f" * 4000 + "\nprint(MASK > 0)\n",
     'hoist2': "def many():\n    return [b'long literal one', b'long literal one', b'long literal one', 'bytes literal', 'bytes literal', 'bytes literal', 1, 1, 1, 1, 0, 0, 0, 0, 1.0, 1.0, 1.0, 1.0]\nprint(many())\n",
 }
 
@@ -57,6 +61,10 @@ CALLS = {
     'awslambda': lambda sh: python_minifier.awslambda(SRC['rename'], entrypoint='handler'),
     'syntaxerror': lambda sh: python_minifier.minify(SRC['syntaxerror']),
     'midfail': lambda sh: python_minifier.minify(SRC['midfail']),
+    'shebang': lambda sh: python_minifier.minify(SRC['shebang']),
+    'shebang+hugeint': lambda sh: python_minifier.minify(SRC['shebang+hugeint']),
+    'hugehex': lambda sh: python_minifier.minify(SRC['hugehex']),
+    'bytes-latin1': lambda sh: python_minifier.minify(b"#!/bin/sh\n# -*- coding: latin-1 -*-\nname = '\xe9\xe8'\nprint(name, name)\n"),
     'rename+str': lambda sh: python_minifier.minify(SRC['rename'], preserve_locals='zzz'),
 }
 
@@ -158,6 +166,34 @@ def run_seeds():
                 out[desc + '|' + oname] = hashlib.sha256(r.encode('utf-8')).hexdigest()[:16]
             except Exception as e:
                 out[desc + '|' + oname] = 'raises:' + type(e).__name__
+    # printers: every member of the expression / statement table, the string placements and the f-string tie programs (default options);
+    # digests are grouped so that the report stays small - a differing group names its members' index range
+    from mc.gen import exprs, strs, fstr
+    tier = sys.argv[3] if len(sys.argv) > 3 else 'quick'
+    only = set(sys.argv[4].split(',')) if len(sys.argv) > 4 else None
+    stride = 8 if tier == 'quick' else 2
+    fexprs = (c for i, c in enumerate(c for c in exprs.depth2_cases() if "f'" in c[1] or 'f"' in c[1]) if i % stride == 0)
+    for gname, gen, size in (('fexpr', fexprs, 200), ('pattern', exprs.pattern_cases(), 50), ('strs', strs.cases('quick', 0, 2 * stride), 200),
+                             ('fstr', fstr.cases(tier), 24)):
+        h = hashlib.sha256()
+        n = 0
+        for label, src in gen:
+            key = '%s:%d' % (gname, n // size)
+            if only is None or key in only:
+                try:
+                    r = python_minifier.minify(src)
+                except Exception as e:
+                    r = 'raises:' + type(e).__name__
+                h.update(r.encode('utf-8', 'surrogatepass') + b'\0')
+            n += 1
+            if n % size == 0:
+                if only is None or key in only:
+                    out[key] = h.hexdigest()[:16]
+                h = hashlib.sha256()
+        if n % size:
+            key = '%s:%d' % (gname, n // size)
+            if only is None or key in only:
+                out[key] = h.hexdigest()[:16]
     return out
 
 
